@@ -58,8 +58,9 @@ def match(source: str, pos: int) -> MatchResult:
             pending_property[0] = alloc_range(pool, start, end, delimiter)
         elif token_type == TokenType.PropertyValue:
             pending = pending_property[0]
-            if pending and pending[0] < pos < end:
-                result[0] = MatchResult('property', pending[0], delimiter + 1, start, end)
+            prop_end = property_end(source, end, delimiter)
+            if pending and pending[0] < pos < prop_end:
+                result[0] = MatchResult('property', pending[0], prop_end, start, end)
                 return False
             release_pending()
 
@@ -103,10 +104,11 @@ def balanced_outward(source: str, pos: int) -> list:
             prop[0] = alloc_range(pool, start, end, delimiter)
         elif token_type == TokenType.PropertyValue:
             p = prop[0]
-            if p and p[0] < pos < max(delimiter, end):
+            prop_end = property_end(source, end, delimiter)
+            if p and p[0] < pos < prop_end:
                 # Push full token and value range
                 push(result, (start, end))
-                push(result, (p[0], delimiter + 1 if delimiter != -1 else end))
+                push(result, (p[0], prop_end))
 
         if token_type != TokenType.PropertyName and prop[0]:
             release_range(pool, prop[0])
@@ -199,9 +201,10 @@ def balanced_inward(source: str, pos: int) -> list:
         elif token_type == TokenType.PropertyValue:
             if pending_property[0]:
                 p = pending_property[0]
-                if p.start <= pos <= end:
+                prop_end = property_end(source, end, delimiter)
+                if p.start <= pos <= prop_end:
                     # Direct hit into property, no need to look further
-                    push(result, (p.start, delimiter + 1))
+                    push(result, (p.start, prop_end))
                     push(result, (start, end))
                     release_pending()
                     return False
@@ -210,7 +213,7 @@ def balanced_inward(source: str, pos: int) -> list:
                 if parent and parent.first_child and parent.first_child.start == p.start:
                     # First child is an expected property name, update its range
                     # to include property value
-                    parent.first_child.end = delimiter + 1 if delimiter != -1 else end
+                    parent.first_child.end = property_end(source, end, delimiter)
 
                 release_pending()
         else:
@@ -220,6 +223,18 @@ def balanced_inward(source: str, pos: int) -> list:
 
     scan(source, scan_callback)
     return result
+
+
+def property_end(source: str, end: int, delimiter: int):
+    """
+    Returns end location of property whose value ends at `end`: a location right
+    after terminating semicolon, if any. A value terminated by closing brace or
+    end of source ends where the value ends
+    """
+    if delimiter != -1 and source[delimiter] == ';':
+        return delimiter + 1
+
+    return end
 
 
 def inner_range(source: str, start: int, end: int):
